@@ -400,3 +400,18 @@ R.contract(
     modifies=["self.alpn_negotiated", "self.early_data_accepted", "self.received_extensions", "self._enc_key", "self._dec_key", "self.g_key_log", "self.state", "input_buf.g_pos", "self.key_schedule.g_hash"],
     ensures=["self.alpn_negotiated is None or (self._alpn_protocols is not None and offered_has(self._alpn_protocols, some(self.alpn_negotiated)))"],
 )
+
+
+# ------------------------------------------------------------------------------------------------ PSK acceptance only after the binder (C03, C11)
+# _server_handle_hello as a whole is not under contract (228 lines); this placement obligation covers the part of C03 "both
+# sides agree on whether the session was resumed" / C11 "keys are released only after the check that authenticates them"
+# that lives in it: the server records a resumed session, and accepts early data (0-RTT key release), only on paths on
+# which the PSK binder comparison `binder != expected_binder` was evaluated and did not raise (engine/dominance.py).
+R.dominance(
+    "_server_handle_hello.psk_after_binder",
+    function="tls.py::Context._server_handle_hello",
+    after="passes:binder != expected_binder",
+    sites=["writes:_session_resumed", "writes:early_data_accepted"],
+    expect={"writes:_session_resumed": 1, "writes:early_data_accepted": 1},
+    prop=["C03", "C11"],
+)
